@@ -527,12 +527,30 @@ fn child() {
                 c.entered.push((s, id, d));
                 json!(0)
             }),
-            "exit" => ws.run(t, move |c| {
-                let i = c.entered.iter().rposition(|e| e.0 == s).expect("exit: not entered");
-                let (_, id, d) = c.entered.remove(i);
-                d.exit(&id);
-                json!(0)
-            }),
+            "exit" => {
+                let unwind = step["unwind"].as_bool().unwrap_or(false);
+                ws.run(t, move |c| {
+                    let i = c.entered.iter().rposition(|e| e.0 == s).expect("exit: not entered");
+                    let (_, id, d) = c.entered.remove(i);
+                    if unwind {
+                        // the span is exited by a guard dropped while a panic unwinds (the panic is caught)
+                        struct ExitOnDrop(Dispatch, span::Id);
+                        impl Drop for ExitOnDrop {
+                            fn drop(&mut self) {
+                                self.0.exit(&self.1);
+                            }
+                        }
+                        let r = std::panic::catch_unwind(std::panic::AssertUnwindSafe(move || {
+                            let _g = ExitOnDrop(d, id);
+                            panic!("unwinding through an entered span");
+                        }));
+                        assert!(r.is_err());
+                    } else {
+                        d.exit(&id);
+                    }
+                    json!(0)
+                })
+            }
             "capture" => {
                 let kind = step["kind"].as_str().unwrap_or("span").to_string();
                 ws.run(t, move |_| {
